@@ -136,8 +136,8 @@ def replay_plane(case):
 
 # ---------------------------------------------------------------- end to end
 SPECIAL = ['"', ' ', '  ', ';', '=', 'Type=dir;', ' -> ', '-', '250 ', '\\', '%s', 'é', '\U0001F600', 'x', 'y', 'size=1;', '1']
-NAME = st.lists(st.one_of(st.sampled_from(SPECIAL), st.text(alphabet="abcdefgh.", min_size=1, max_size=4)), min_size=1,
-                max_size=4).map("".join).filter(lambda s: s not in (".", "..") and not s[-1].isspace() and len(s.encode()) < 120)
+NAME = st.one_of(st.lists(st.one_of(st.sampled_from(SPECIAL), st.text(alphabet="abcdefgh.", min_size=1, max_size=4)), min_size=1,
+                          max_size=4).map("".join), st.just("d")).filter(lambda s: s not in (".", "..") and not s[-1].isspace() and len(s.encode()) < 120)
 ENTRY = st.tuples(NAME, st.booleans(), st.one_of(st.integers(0, 2000), st.integers(0, 1 << 40)), DELTA)
 E2E = st.tuples(st.lists(ENTRY, max_size=12, unique_by=lambda e: e[0]), NOW, st.sampled_from(["mem", "mem", "fs"]),
                 st.booleans(), st.integers(0, 3))
@@ -251,6 +251,13 @@ async def _e2e(loop, entries, now, backend, listonly, tmp, result):
                     if info["modify"] != exp:
                         raise Violation("C07/e2e/mlsd/modify", dict(name=p.name, got=info["modify"], expected=exp))
             result["listings"] += 1
+        # stat of the listed directory itself (it may contain an entry of the same name)
+        try:
+            info = await c.stat("d")
+        except Exception as e:  # noqa
+            raise Violation(f"C07/e2e/stat_dir/raised_{type(e).__name__}", dict(error=repr(e)[:200], entries=entries))
+        if info["type"] != "dir":
+            raise Violation("C07/e2e/stat_dir/type", dict(got=info, entries=[e_[:2] for e_ in entries]))
         # stat of single entries (MLST, or the LIST fallback inside stat())
         for name, (typ, size, mtime) in list(truth.items())[:4]:
             if listonly and name[0].isspace():
